@@ -284,7 +284,7 @@ fn cmd_check(args: &[String]) -> i32 {
 
     let findings = load_findings();
     // a recorded finding carries a minimised replay that must still reproduce; if it does not, say so
-    for f in findings.findings.iter().filter(|f| f.status == "open" && f.property == id && !f.replay.is_empty()) {
+    for f in findings.findings.iter().filter(|f| f.status == "open" && f.property.split(',').next().map(|p| p.trim() == id).unwrap_or(false) && !f.replay.is_empty()) {
         let path = format!("{}/{}", world::verif_root(), f.replay);
         if let Ok(text) = std::fs::read_to_string(&path) {
             if let Ok(file) = serde_json::from_str::<Value>(&text) {
@@ -425,6 +425,11 @@ fn cmd_replay(id: &str, path: &str, timeout: Duration) -> i32 {
     if let Some(v) = hit {
         println!("VIOLATION property={} replay={}", id, path);
         println!("  class={} :: {}", v.class, v.detail);
+        let findings = load_findings();
+        match findings.open_match(id, &v.sig) {
+            Some(f) => println!("  signature={} (matches recorded finding {})", v.sig.clone().unwrap_or_default(), f.id),
+            None => println!("  signature={} (no recorded finding)", v.sig.clone().unwrap_or_default()),
+        }
         1
     } else if timed_out && class == "did-not-terminate" {
         println!("VIOLATION property={} replay={}", id, path);
@@ -439,10 +444,17 @@ fn cmd_replay(id: &str, path: &str, timeout: Duration) -> i32 {
 // ------------------------------------------------------------------ selftest (determinism)
 
 fn cmd_selftest(args: &[String]) -> i32 {
-    let per = arg_val(args, "--runs").and_then(|s| s.parse().ok()).unwrap_or(60u64);
+    let per_arg: Option<u64> = arg_val(args, "--runs").and_then(|s| s.parse().ok());
     let base = env_seed();
     let mut bad = 0;
     for id in checks::ALL {
+        // sample sizes: cheap engines get more runs; C09 fewer (each hang costs the wall-clock guard twice)
+        let per = per_arg.unwrap_or(match *id {
+            "C14" | "C15" => 4000,
+            "C09" => 40,
+            "C27" => checks::n_runs(id, "quick"),
+            _ => 120,
+        });
         let reqs = |n: u64| -> Vec<Value> { (0..n).map(|i| json!({"check": id, "tier": "quick", "base": base, "idx": i})).collect() };
         let a = run_requests(reqs(per), default_jobs(), Duration::from_secs(120));
         let b = run_requests(reqs(per), 3, Duration::from_secs(120));
